@@ -52,6 +52,30 @@ CHECKS = {
          "model_checking",
          "Bounded symbolic model checking: operand year and relative years are cell parameters; month, day, time of day, relative months/days/leapdays/time fields, absolute fields (day up to 31) and weekday index/n are solver variables.",
          "Trusted: as C09; stored relative fields assumed normalised (C16 proves the constructor establishes that). yearday/nlyearday, aware operands and float fields are outside.", "§5 C03", "chx"),
+ "C04": ("symbolic execution (CrossHair core + z3) of the real fromutc/utcoffset/astimezone of every zone with the UTC instant as solver variable over the zone's whole transition table; the zone's bisects fork into one path per transition interval so both sides of every transition are decided by z3",
+         "model_checking",
+         "Bounded symbolic model checking: for each zone object (tzutc, tzoffset with symbolic offset, every distinct TZif file) every UTC instant in [first transition - 10**6 s, last + 10**6 s] is covered; z3 proves wall - utc == utcoffset and the round trip on each interval or returns the instant that breaks it.",
+         "%s Rule zones (tzstr/tzrange/tzlocal/tzical) get the same clauses in the C08/C17 cells. ~440 transitions of ~230 zones fail on the unchanged tree (tzfile heuristics): listed individually in known_findings.txt by zone and transition index." % TS, "§5 C04", "chx"),
+ "C05": ("symbolic execution (CrossHair core + z3) of datetime_exists / datetime_ambiguous / utcoffset(fold) / fromutc / resolve_imaginary with the naive wall time as solver variable; the number of UTC pre-images is one fork-free formula over an independent reading of the TZif data",
+         "model_checking",
+         "Bounded symbolic model checking per zone: all wall times over the transition table; exists <=> >=1 pre-image, ambiguous <=> 2, fold 0/1 = earlier/later, fold irrelevant when unique, resolve_imaginary moves by the gap width.",
+         TS + " Known findings listed per zone/transition/clause.", "§5 C05", "chx"),
+ "C06": ("symbolic execution (CrossHair core + z3): (a) every instant of every installed TZif file vs an independent reader of the v1 block; (b) SYMBOLIC TZif content -- struct.unpack replaced by a model handing out solver variables for transition times / type indices / ttinfo of files with <=3 transitions and <=3 types; (c) load-path equivalence (name, path, stream, ZoneInfoFile archive with link, copy, pickle) at a symbolic instant",
+         "model_checking",
+         "Bounded symbolic model checking; (b) quantifies over all small TZif files, so transition shapes absent from real data are covered.",
+         TS + " 'The data' = version-1 block. Known findings: last-transition-into-DST shapes and the zones/transitions listed.", "§5 C06", "chx"),
+ "C08": ("symbolic execution (CrossHair core + z3) of tzstr / tzrange / tzlocal with the instant (UTC resp. wall) as solver variable against break points from an independent POSIX TZ implementation; tzlocal runs on a platform model (time.localtime etc.) following the same rule",
+         "model_checking",
+         "Bounded symbolic model checking per (rule, year, zone kind): every second of the year +-3 days; offset, abbreviation, dst, round trip, exists/ambiguous/fold clauses.",
+         TS + " Rules and years are enumerated cells (9-17 rule specs x 1-6 years); malformed-string rejection is outside. Known findings: tzstr rules whose end time is below the saving or 24:00.", "§5 C08", "chx"),
+ "C17": ("symbolic execution (CrossHair core + z3) of tzical zones parsed from generated VTIMEZONE text (RRULE / RDATE / swapped / folded / two zones) with the instant as solver variable, against the same independent POSIX reference as C08",
+         "model_checking",
+         "Bounded symbolic model checking per (rule, variant, year): every second of a year within 6 years after the first onset; plus structural malformed-definition and get()/keys() cells.",
+         TS + " J/n rule forms, instants before the first onset and all-DAYLIGHT definitions are outside.", "§5 C17", "chx"),
+ "C01": ("(1) symbolic execution (CrossHair core + z3) of the kernels __mod_distance, __construct_byset and the constructor's BY-part normalisation with solver-variable values; (2) end-to-end prefixes of ~50 rule shapes x 3-5 start dates, once per calendar class (weekday of 1 Jan + leap flags of the touched years; classes enumerated through the engine, all years 2..9990 covered by an exhaustive native class scan), compared with an independent brute-force RFC 5545 reference",
+         "other",
+         "Layer (1) is bounded symbolic model checking. Layer (2) is class enumeration with concrete execution per class: a symbolic start year made every calendar query `unknown` (measured), so the solver does not decide this layer; it is kept because it is what detects iteration/carry/mask regressions.",
+         "Trusted: the reference implementation harness/rfc5545.py (agrees with dateutil on 10 000 random rules apart from the recorded findings); the paper argument that rrule's behaviour is uniform within a calendar class. Shapes/starts outside the cell list, prefixes beyond K are outside.", "§5 C01", "chx"),
 }
 NA = {}
 
